@@ -85,7 +85,8 @@ pub fn scripted(seed: u64, len: usize, adversarial: bool) -> Script {
             38..=49 => Step::WriteDone {},
             50..=61 => { if adversarial && rng.gen_bool(0.2) { Step::Ack { which: pick(&mut rng, &["oldest", "newest", "1"]).to_string(), how: pick(&mut rng, &["wrongtype", "unknownid", "dup", "wrongcount", "fail"]).to_string() } } else { Step::Ack { which: if rng.gen_bool(0.85) { "oldest".into() } else { "newest".into() }, how: if rng.gen_bool(0.1) { "fail".into() } else if rng.gen_bool(0.1) { "nomatch".into() } else { "normal".into() } } } }
             62..=66 => { if open { open = false; Step::Close {} } else { open = true; Step::Open { deadline: pick(&mut rng, &[50, 1000, 30000]) } } }
-            67..=72 => random_connack(&mut rng, adversarial),
+            // a failing CONNACK carries a code of the protocol version in use (0x87 is not a 3.1.1 return code: such bytes are not a CONNACK at all)
+            67..=72 => { let c = random_connack(&mut rng, adversarial); if cfg.ver != 5 { if let Step::Connack { sp, rm, ka, tam, mqos, rc, ret, wild, subid, shared, mps, acid } = c { Step::Connack { sp, rm, ka, tam, mqos, rc: if rc > 5 { 5 } else { rc }, ret, wild, subid, shared, mps, acid } } else { c } } else { c } }
             73..=77 => Step::InPub { qos: pick(&mut rng, &[0, 1, 2, 2]), pid: pick(&mut rng, &[-1, -1, -2, 3]), dup: rng.gen_bool(0.3), alias: if adversarial { pick(&mut rng, &["none", "none", "bind", "reuse", "unknown", "zero", "range"]).to_string() } else { pick(&mut rng, &["none", "none", "bind", "reuse"]).to_string() }, topic: pick(&mut rng, &["in1", "in2"]).to_string() },
             78..=80 => Step::InPubrel { pid: if adversarial { pick(&mut rng, &[-1, -1, -3]) } else { -1 } },
             81..=86 => Step::Advance { ms: pick(&mut rng, &[1, 10, 99, 100, 101, 500, 1000, 2000]) },
